@@ -59,9 +59,125 @@ impl<'a, 'tcx> W<'a, 'tcx> {
         }
     }
 
+    /// integer value of a constant expression: literals, named constants, casts and + - * << >> of those
+    fn const_int(&self, e: &'tcx hir::Expr<'tcx>, depth: usize) -> Option<i128> {
+        let tcx = self.cx.tcx;
+        if depth > 6 {
+            return None;
+        }
+        match e.kind {
+            hir::ExprKind::Lit(l) => match l.node {
+                rustc_ast::ast::LitKind::Int(n, _) => {
+                    let v: u128 = n.get();
+                    if v > i128::MAX as u128 { None } else { Some(v as i128) }
+                }
+                _ => None,
+            },
+            hir::ExprKind::Cast(x, _) | hir::ExprKind::DropTemps(x) => self.const_int(x, depth + 1),
+            hir::ExprKind::Path(ref qp) => match self.tr.qpath_res(qp, e.hir_id) {
+                Res::Def(DefKind::Const { .. } | DefKind::AssocConst { .. }, did) => {
+                    let args = self.tr.node_args(e.hir_id);
+                    if ty::TypeVisitableExt::has_param(&args) {
+                        return None;
+                    }
+                    let uv = rustc_middle::mir::UnevaluatedConst::new(did, args);
+                    let t = self.tr.expr_ty(e);
+                    if !t.is_integral() {
+                        return None;
+                    }
+                    match tcx.const_eval_resolve(self.tenv, uv, rustc_span::DUMMY_SP) {
+                        Ok(rustc_middle::mir::ConstValue::Scalar(rustc_middle::mir::interpret::Scalar::Int(i))) => {
+                            match crate::scalar_int_json(i, t) {
+                                J::Int(v) => Some(v),
+                                _ => None,
+                            }
+                        }
+                        _ => None,
+                    }
+                }
+                _ => None,
+            },
+            hir::ExprKind::Binary(op, a, b) => {
+                let x = self.const_int(a, depth + 1)?;
+                let y = self.const_int(b, depth + 1)?;
+                match op.node {
+                    hir::BinOpKind::Add => x.checked_add(y),
+                    hir::BinOpKind::Sub => x.checked_sub(y),
+                    hir::BinOpKind::Mul => x.checked_mul(y),
+                    hir::BinOpKind::Shl if (0..100).contains(&y) => x.checked_shl(y as u32),
+                    hir::BinOpKind::Shr if (0..100).contains(&y) => x.checked_shr(y as u32),
+                    _ => None,
+                }
+            }
+            _ => None,
+        }
+    }
+
+    /// canonical rendering of an expression: constant sub-expressions folded to their value, immutable `let`
+    /// bindings replaced by their initialiser, casts / borrows / parentheses dropped, no white space
+    fn norm_expr(&self, e: &'tcx hir::Expr<'tcx>, depth: usize) -> String {
+        let tcx = self.cx.tcx;
+        if let Some(v) = self.const_int(e, 0) {
+            return format!("{}", v);
+        }
+        if depth > 5 {
+            return snip(self.cx, e.span, 100).replace(' ', "");
+        }
+        match e.kind {
+            hir::ExprKind::Cast(x, _) | hir::ExprKind::DropTemps(x) | hir::ExprKind::AddrOf(_, _, x) => self.norm_expr(x, depth + 1),
+            hir::ExprKind::Unary(hir::UnOp::Deref, x) => self.norm_expr(x, depth + 1),
+            hir::ExprKind::Path(ref qp) => {
+                if let Res::Local(hid) = self.tr.qpath_res(qp, e.hir_id) {
+                    // immutable binding `let x = init;` : substitute the initialiser
+                    if let hir::Node::Pat(pat) = tcx.hir_node(hid) {
+                        if let hir::PatKind::Binding(hir::BindingMode(hir::ByRef::No, hir::Mutability::Not), _, _, None) = pat.kind {
+                            if let hir::Node::LetStmt(ls) = tcx.parent_hir_node(hid) {
+                                if ls.pat.hir_id == hid && ls.els.is_none() {
+                                    if let Some(init) = ls.init {
+                                        if matches!(init.kind, hir::ExprKind::Binary(..) | hir::ExprKind::Cast(..) | hir::ExprKind::Lit(..) | hir::ExprKind::Path(..) | hir::ExprKind::Field(..) | hir::ExprKind::MethodCall(..)) && !matches!(init.kind, hir::ExprKind::MethodCall(..)) || matches!(init.kind, hir::ExprKind::MethodCall(seg, ..) if seg.ident.name.as_str() == "len") {
+                                            return self.norm_expr(init, depth + 1);
+                                        }
+                                    }
+                                }
+                            }
+                        }
+                    }
+                    return tcx.hir_name(hid).to_string();
+                }
+                snip(self.cx, e.span, 100).replace(' ', "")
+            }
+            hir::ExprKind::Binary(op, a, b) => {
+                let o = match op.node {
+                    hir::BinOpKind::Add => "+",
+                    hir::BinOpKind::Sub => "-",
+                    hir::BinOpKind::Mul => "*",
+                    hir::BinOpKind::Div => "/",
+                    hir::BinOpKind::Rem => "%",
+                    hir::BinOpKind::Shl => "<<",
+                    hir::BinOpKind::Shr => ">>",
+                    _ => return snip(self.cx, e.span, 100).replace(' ', ""),
+                };
+                format!("{}{}{}", self.norm_expr(a, depth + 1), o, self.norm_expr(b, depth + 1))
+            }
+            hir::ExprKind::Field(base, ident) => format!("{}.{}", self.norm_expr(base, depth + 1), ident.name),
+            hir::ExprKind::MethodCall(seg, recv, args, _) => {
+                let a: Vec<String> = args.iter().map(|x| self.norm_expr(x, depth + 1)).collect();
+                format!("{}.{}({})", self.norm_expr(recv, depth + 1), seg.ident.name, a.join(","))
+            }
+            _ => snip(self.cx, e.span, 100).replace(' ', ""),
+        }
+    }
+
     fn arg_desc(&self, e: &'tcx hir::Expr<'tcx>) -> J {
         let tcx = self.cx.tcx;
         let mut o = J::obj().set("snip", J::s(snip(self.cx, e.span, 100)));
+        o.put("nx", J::s(self.norm_expr(e, 0)));
+        if let Some(v) = self.const_int(e, 0) {
+            if !matches!(e.kind, hir::ExprKind::Lit(_)) {
+                o.put("lit", J::Int(v));
+                o.put("folded", J::Bool(true));
+            }
+        }
         if let Some(t) = self.tr.expr_ty_adjusted_opt(e) {
             o.put("ty", J::s(ty_s(t)));
         }
